@@ -279,6 +279,13 @@ func (p *prop) Generate(rng *core.Rand, tier string, emit func(string)) {
 		k := genCase(rng)
 		emit(k.line())
 	}
+	// sequences of requests over one real keep-alive / HTTP/2 connection
+	for c := 0; c < n/40; c++ {
+		emit(genSeq(rng))
+	}
+	for _, l := range []string{"seq 12 1 . .", "seq 0 3 . .", "seq 0 1 .|.|.|.|. .", "seq 0 1 ."} {
+		emit(l)
+	}
 	// templates' httpInclude: the virtual sub-request of an outer request
 	for c := 0; c < n/16; c++ {
 		k := genCase(rng)
